@@ -656,7 +656,7 @@ func (e *storeEnv) idxViol(class, format string, args ...interface{}) {
 		// the index (tbtree) never truncates its logs: entries of the timeline lost in
 		// the first crash that lie beyond the recovered extent stay in the files, and a
 		// second crash can resurrect them (recorded for C10, same root cause here)
-		e.r.Finding(class, "C10:stale-log-tail-after-crash", "second crash after a power loss that had dropped index writes; then: "+format+"\n  committed log: "+e.dumpLog(), args...)
+		e.r.Finding(class, "C03:stale-index-tail-after-repeated-crash", "second crash after a power loss that had dropped index writes; then: "+format+"\n  committed log: "+e.dumpLog(), args...)
 		e.r.EndRun()
 	}
 	e.r.Violation(class, "", format+"\n  committed log: "+e.dumpLog(), args...)
